@@ -5,8 +5,9 @@
    used here; a rejection by this monitor of a trace recorded from the real code is the only thing that is a VIOLATION.
 
    The monitor is a deterministic fold over the concatenated log (one state per record, `Reset` starts a new trace with
-   its own options).  It never blocks: every finding is appended to `bad` (first finding per property and trace) and the
-   list is written to mon_out.json when the log is exhausted.
+   its own options).  It never blocks: every finding (first finding per property and trace) is appended to a list kept in
+   TLC register 1 (-workers 1; outside the state, so the fold stays linear), `bad` counts them, and the list is written to
+   mon_out.json when the log is exhausted.
 
    Observed notions
      accepted(x)   the record at which the element had left the input channel (len(input) dropped / the blocked writer
@@ -20,6 +21,7 @@
 EXTENDS Integers, Sequences, FiniteSets, TLC, Json
 
 Log == ndJsonDeserialize("trace.ndjson")
+ASSUME TLCSet(1, <<>>)
 
 VARIABLES l, m, bad
 mvars == <<l, m, bad>>
@@ -33,7 +35,8 @@ Rep(x, n) == [i \in 1..Max(n, 0) |-> x]
 Fresh(c, tr) ==
   [c |-> c, tr |-> tr, nW |-> 0, itemEnd |-> <<>>, itemLen |-> <<>>, accAt |-> <<>>, inClosed |-> FALSE,
    haltAt |-> -1, stopAsked |-> FALSE, nRecv |-> 0, lastId |-> 0, put |-> <<>>, nRel |-> 0, exp |-> <<>>, mems |-> {},
-   prev |-> [short |-> FALSE, dt |-> 0, idx |-> 0], notReadyAt |-> -1, lastNow |-> 0, lastOutlen |-> 0]
+   prev |-> [short |-> FALSE, dt |-> 0, idx |-> 0], notReadyAt |-> -1, lastNow |-> 0, lastOutlen |-> 0,
+   fl |-> {}]                      \* properties already reported for this trace (first finding per property and trace)
 
 NoCfg == [kind |-> "join", J |-> 1, T |-> 0, Div |-> 1, nocopy |-> FALSE]
 
@@ -141,15 +144,15 @@ PostFindings(s2, e) ==
        (\E x \in Max(1, s2.lastId + 1)..Len(s2.accAt) : s2.accAt[x] > s2.notReadyAt /\ e.now - s2.accAt[x] > Bound(s2)),
        "C10", "element still inside the discipline later than Timeout*(1+1/Div) after it was accepted, consumer ready")
 
-AddAll(b, fs, tr, idx) ==
-  LET f[i \in 0..Len(fs)] ==
-        IF i = 0 THEN b
-        ELSE IF \E j \in 1..Len(f[i - 1]) : f[i - 1][j].prop = fs[i].prop /\ f[i - 1][j].tr = tr THEN f[i - 1]
-        ELSE Append(f[i - 1], [prop |-> fs[i].prop, tr |-> tr, idx |-> idx, msg |-> fs[i].msg])
-  IN f[Len(fs)]
+\* first finding per property and trace: the findings of this record that concern a property not yet reported for the trace
+Adds(s, fs, idx) ==
+  LET pick(p) == LET S == {i \in 1..Len(fs) : fs[i].prop = p}
+                 IN IF p \in s.fl \/ S = {} THEN <<>>
+                    ELSE <<[prop |-> p, tr |-> s.tr, idx |-> idx, msg |-> fs[CHOOSE i \in S : \A j \in S : i <= j].msg]>>
+  IN pick("C03") \o pick("C08") \o pick("C09") \o pick("C10") \o pick("C11") \o pick("C16")
 
 \* ------------------------------------------------------------------ the fold
-MInit == l = 0 /\ m = Fresh(NoCfg, 0) /\ bad = <<>>
+MInit == l = 0 /\ m = Fresh(NoCfg, 0) /\ bad = 0
 
 MStep ==
   /\ l < Len(Log)
@@ -159,17 +162,19 @@ MStep ==
      ELSE LET s1 == EvUpd(m, e)
               s2 == ObsUpd(s1, e)
               fs == EvFindings(m, e) \o HeldFindings(s1, e) \o PostFindings(s2, e)
-          IN m' = s2 /\ bad' = AddAll(bad, fs, m.tr, l + 1)
+          IN /\ m' = [s2 EXCEPT !.fl = @ \cup {fs[i].prop : i \in 1..Len(fs)}]
+             /\ LET new == Adds(m, fs, l + 1) IN
+                IF new = <<>> THEN bad' = bad ELSE TLCSet(1, TLCGet(1) \o new) /\ bad' = bad + Len(new)
   /\ l' = l + 1
 
 MFinish ==
   /\ l = Len(Log)
-  /\ JsonSerialize("mon_out.json", [events |-> Len(Log), bad |-> bad])
+  /\ JsonSerialize("mon_out.json", [events |-> Len(Log), bad |-> TLCGet(1)])
   /\ l' = l + 1 /\ UNCHANGED <<m, bad>>
 
 MNext == MStep \/ MFinish
 MSpec == MInit /\ [][MNext]_mvars
 
 \* the properties as invariants (used by the self-test; the verdict run collects findings instead of stopping)
-NoFinding == bad = <<>>
+NoFinding == bad = 0
 =============================================================================
